@@ -74,6 +74,26 @@ PROPS = {
             "stub": ["SimBackend job queue, clock, representation, failures (sim/tksim.py)",
                      "M3 branch simulator and classical post-processing evaluator (sim/tksim.py)"]},
     },
+    "C18": {
+        "engine": "grammar",
+        "quick": (5000, 45), "thorough": (150000, 700),
+        "rule": ("Each run mixes (swarm weights per run): CFG.generate on random grammars (1-4 symbols, 1-7 "
+                 "productions, empty right-hand sides, unit and recursive productions, unreachable symbols) with "
+                 "every random.shuffle outcome decided by the simulator (policies: random, constant, alternating, "
+                 "reversing), 1-3 generators interleaved on the shared PRNG, abandoned or exhausted; eager_parse on "
+                 "word sequences built backwards from a derivation (20% perturbed); brute_force under a line-event "
+                 "budget; biclosed2rigid on FA/BA/FC/BC/FX/BX/Curry/boxes over nested slash types; tree2diagram "
+                 "on random CCG trees. DISTINCT by (grammar, sentence) / parse result / (rule, types) / tree; "
+                 "all NON-TRIVIAL (each is an output checked by M4)."),
+        "assumptions": [
+            "M4: rigid image of a slash type is recomputed from the slash structure alone ((l<<r) -> l @ r.l, (l>>r) -> l.r @ r)",
+            "a generated sentence is accepted when it is a well-typed diagram into the start symbol built from the given productions only (leftmost-ness and completeness are recorded, not asserted)",
+            "brute_force is an infinite search: a step that exceeds its line-event budget is abandoned without verdict"],
+        "real_stub": {
+            "real": ["/repo/discopy working tree: grammar.cfg, grammar.pregroup, grammar.ccg, biclosed, rigid"],
+            "stub": ["SimRandom replacing discopy.grammar.cfg.random (every shuffle is a recorded decision)",
+                     "M4 derivation checker and slash-type wire count (sim/engines/grammar.py)"]},
+    },
 }
 
 REAL_STUB = {
